@@ -214,7 +214,11 @@ def build(case):
     if case.get("first_hyperpars"):
         # construct with other hyper-parameters, then move to the intended ones:
         # everything cached by set_hyperparameters (K_xx, mu, L, alpha) must follow
-        gp = GP()(xin, y, hyperpars=MX.unhex(case["first_hyperpars"]),
+        # history dimension: ONE array object carries the hyper-parameters; it is handed to the
+        # constructor with the first values and later overwritten IN PLACE with the intended ones
+        # (a hyper-parameter scan) -- the regressor must follow the values, not the object
+        buf = np.array(MX.unhex(case["first_hyperpars"]), dtype=float)
+        gp = GP()(xin, y, hyperpars=buf,
                   kernel=MX.make_kernel(case["kernel"]), mean=MX.make_mean(case["mean"]), **kw)
         # use every path once under the first hyper-parameters, so that anything a
         # path caches on first use is stale afterwards
@@ -222,7 +226,8 @@ def build(case):
         gp(parg)
         gp.build_posterior(parg)
         gp.build_posterior(parg, mean_only=True)
-        gp.set_hyperparameters(hp)
+        buf[:] = np.asarray(hp, dtype=float)
+        gp.set_hyperparameters(buf)
         return gp
     return GP()(xin, y, hyperpars=hp,
                 kernel=MX.make_kernel(case["kernel"]), mean=MX.make_mean(case["mean"]), **kw)
